@@ -78,9 +78,22 @@ type ifStmt struct {
 	old2 codeBlockCtx
 }
 
+// isBooleanCond reports whether typ can be the type of an if or for condition: any
+// boolean type, named or not.
+func isBooleanCond(typ types.Type) bool {
+	if typ == nil {
+		return false
+	}
+	if types.AssignableTo(typ, types.Typ[types.Bool]) {
+		return true
+	}
+	t, ok := typ.Underlying().(*types.Basic)
+	return ok && t.Info()&types.IsBoolean != 0
+}
+
 func (p *ifStmt) Then(cb *CodeBuilder, src ...ast.Node) {
 	cond := cb.stk.Pop()
-	if cond.Type == nil || !types.AssignableTo(cond.Type, types.Typ[types.Bool]) {
+	if !isBooleanCond(cond.Type) {
 		cb.panicCodeError(getPos(src), getEnd(src), "non-boolean condition in if statement")
 	}
 	p.cond = cond.Val
@@ -427,7 +440,7 @@ type forStmt struct {
 func (p *forStmt) Then(cb *CodeBuilder, src ...ast.Node) {
 	cond := cb.stk.Pop()
 	if cond.Val != nil {
-		if cond.Type == nil || !types.AssignableTo(cond.Type, types.Typ[types.Bool]) {
+		if !isBooleanCond(cond.Type) {
 			panic("TODO: for statement condition is not a boolean expr")
 		}
 		p.cond = cond.Val
